@@ -186,8 +186,11 @@ def run_case(case):
                 != victim}
 
         def on_rmtree(path):
-            if os.path.abspath(path) != os.path.abspath(cdir):
+            ap, cd_ = os.path.abspath(path), os.path.abspath(cdir)
+            if ap != cd_ and not ap.startswith(cd_ + os.sep):
                 return
+            if "rmtree" in events:
+                return          # (the deletion may come in several calls)
             events.append("rmtree")
             if farmer_kind == "harvester":
                 ok = mem_only or os.path.exists(data_name)
